@@ -142,10 +142,11 @@ def mmap2(pid, tid, addr, length, pgoff, path, time, build_id=None, prot=5, flag
     return _rec(PERF_RECORD_MMAP2, misc, body)
 
 
-def sample(pid, tid, time, ip, callchain, cpu=0, period=1, kernel=False, unwind=None):
+def sample(pid, tid, time, ip, callchain, cpu=0, period=1, kernel=False, unwind=None, cpumode=None):
     """callchain: list of u64 (already including context markers if wanted); if None, [PERF_CONTEXT_USER, ip].
     unwind (with set_user_stack): the return addresses of the callers, leaf-most first - written as a copied user stack holding a well-formed x86-64
-    frame-pointer chain (saved rbp, return address; the root-most record's saved rbp is 0) under registers bp / sp / ip, for the converter to unwind"""
+    frame-pointer chain (saved rbp, return address; the root-most record's saved rbp is 0) under registers bp / sp / ip, for the converter to unwind.
+    cpumode: the PERF_RECORD_MISC_CPUMODE bits of the record header when given (0 unknown, 1 kernel, 2 user, 3 hypervisor, 4 guest kernel, 5 guest user)"""
     if callchain is None:
         callchain = [PERF_CONTEXT_USER, ip]
     st = _layout["sample_type"]
@@ -167,12 +168,12 @@ def sample(pid, tid, time, ip, callchain, cpu=0, period=1, kernel=False, unwind=
             body += struct.pack("<QQQQ", 2, USER_SP if n else 0, USER_SP, ip)          # abi 64; registers in bit order: bp, sp, ip
             stack = b"".join(struct.pack("<Q", w) for w in words)
             body += struct.pack("<Q", len(stack)) + stack + (struct.pack("<Q", len(stack)) if stack else b"")
-    return _rec(PERF_RECORD_SAMPLE, MISC_KERNEL if kernel else MISC_USER, body)
+    return _rec(PERF_RECORD_SAMPLE, cpumode if cpumode is not None else MISC_KERNEL if kernel else MISC_USER, body)
 
 
-def switch(pid, tid, time, cpu=0, out=False):
-    """PERF_RECORD_SWITCH: no body, only the sample_id_all trailer; misc bit 13 = switch-out"""
-    return _rec(PERF_RECORD_SWITCH, MISC_SWITCH_OUT if out else 0, _trailer(pid, tid, time, cpu, main=True))
+def switch(pid, tid, time, cpu=0, out=False, preempt=False):
+    """PERF_RECORD_SWITCH: no body, only the sample_id_all trailer; misc bit 13 = switch-out, bit 14 (with it) = the task was preempted (still runnable)"""
+    return _rec(PERF_RECORD_SWITCH, (MISC_SWITCH_OUT if out else 0) | ((1 << 14) if out and preempt else 0), _trailer(pid, tid, time, cpu, main=True))
 
 
 def finished_round():
